@@ -11,5 +11,6 @@ NOT_DECIDED = {
     'C17': ['the applies-the-difference half (replace_reload, Reactor.reload, _commit_reload) is bounded only', 'assumed: _link()/validate() do not raise after the commit'],
     'C11': ['bounded only: crash points enumerated, not eliminated by an invariant; transport is a recording stub'],
     'C14': ['acknowledgement order and no-side-effect-on-error clauses are not covered (no obligations, no bounded check)', 'rstrip()/formated() opaque; extract_neighbors bounded only'],
+    'C18': ['as_path, _large_community, extended communities, labels/RD, flow and VPLS text parsers: bounded only', 'count/size limits (number of communities, attribute larger than a message): not swept here'],
     'C06': ['the kernel delivers the byte stream faithfully (recv callee contract); interference from other asyncio tasks at await is not decided'],
 }
